@@ -3,13 +3,13 @@ C01 — dcat reproduces file content byte for byte.
 Property theorems only; helper lemmas live in Lemmas/.
 -/
 import DtailModel.Lemmas.Wire
+import DtailModel.Lemmas.Fast
 namespace Dtail.C01
 open Dtail
 
-/-- The property at full strength: for every content, every MaxLineLength ≥ 1 and every
-    transport buffer size, plain dcat prints the content with newlines inserted after
-    each run of `m` non-newline bytes. -/
-def C01_full : Prop := ∀ (m bufLen : Nat) (bs : Bytes), 1 ≤ m → 1 ≤ bufLen → dcatPlain m bufLen bs = insertNL m 0 bs
+/-- The property at full strength: for every content and every MaxLineLength ≥ 1, plain dcat
+    prints the content with newlines inserted after each run of `m` non-newline bytes. -/
+def C01_full : Prop := ∀ (m : Nat) (bs : Bytes), 1 ≤ m → dcatPlain m bs = insertNL m 0 bs
 
 /-- The reader alone (no wire) satisfies the property for every content. -/
 theorem C01_reader (m : Nat) (bs : Bytes) : (readLines m bs).flatten = insertNL m 0 bs :=
@@ -23,38 +23,54 @@ theorem C01_reader_lines_wf (m : Nat) (bs : Bytes) : ∀ l ∈ readLines m bs, L
 theorem C01_chunking (s : CS) (a b : Bytes) :
     clientFeed s (a ++ b) = clientFeed (clientFeed s a) b := clientFeed_append s a b
 
-/-- Outside the three finding signatures the property holds for every content. -/
-theorem C01_partial (m bufLen : Nat) (bs : Bytes)
-    (h1 : sigDelim bs = false) (h2 : sigDot m bs = false) (h3 : sigLong m bufLen bs = false) :
-    dcatPlain m bufLen bs = insertNL m 0 bs := by
+/-- Outside the two remaining finding signatures the property holds for every content
+    (after the fix of the transport-buffer truncation no line length is excluded). -/
+theorem C01_partial (m : Nat) (bs : Bytes)
+    (h1 : sigDelim bs = false) (h2 : sigDot m bs = false) :
+    dcatPlain m bs = insertNL m 0 bs := by
   have hd : DELIM ∉ bs := by simpa [sigDelim] using h1
-  have hgood : ∀ l ∈ readLines m bs, GoodLine bufLen l := by
+  have hgood : ∀ l ∈ readLines m bs, GoodLine l := by
     intro l hl
-    refine ⟨readLines_wf m bs l hl, readLines_noDelim m bs hd l hl, ?_, ?_⟩
-    · have := h2; simp only [sigDot, List.any_eq_false] at this
-      simpa using this l hl
-    · have := h3; simp only [sigLong, List.any_eq_false] at this
-      have := this l hl; simp at this; omega
-  have hmap : (catLines [] (readLines m bs)).map (frameLine true [] bufLen)
-      = (readLines m bs).map (fun c => (c ++ [DELIM]).take bufLen) := by
+    refine ⟨readLines_wf m bs l hl, readLines_noDelim m bs hd l hl, ?_⟩
+    have := h2; simp only [sigDot, List.any_eq_false] at this
+    simpa using this l hl
+  have hmap : (catLines [] (readLines m bs)).map (frameOf true [])
+      = (readLines m bs).map (fun c => c ++ [DELIM]) := by
     simp only [catLines, List.map_map]
-    exact map_zipIdx_fst (fun c => (c ++ [DELIM]).take bufLen) _ 0
+    have : ((frameOf true []) ∘ fun (x : Bytes × Nat) => (⟨x.1, x.2 + 1, 100, []⟩ : Line))
+        = fun x => (fun c => c ++ [DELIM]) x.1 := by
+      funext x; simp [frameOf]
+    rw [this]
+    exact map_zipIdx_fst (fun c => c ++ [DELIM]) _ 0
   unfold dcatPlain
-  rw [hmap, (pipeline_plain bufLen _ [] hgood).2, readLines_flatten]
+  rw [hmap, (pipeline_plain _ [] hgood).2, readLines_flatten]
   simp [printed]
 
-/-- The unchanged code violates the full property: three kernel-checked witnesses. -/
+/-- However the transport buffer cuts a frame into pieces, the client receives the frame:
+    the successive `Read(p)` results concatenate to it (this is what the fix restored). -/
+theorem C01_read_pieces (bufLen : Nat) (hb : 0 < bufLen) (frame : Bytes) :
+    (readPieces bufLen frame.length frame).flatten = frame :=
+  readPieces_flatten bufLen hb frame frame.length (Nat.le_refl _)
+
+/-- The unchanged protocol still violates the full property: two kernel-checked witnesses. -/
 theorem C01_full_false : ¬ C01_full := by
   intro h
-  have := h 8 16 [97, DELIM, 98, NL] (by decide) (by decide)
+  have := h 8 [97, DELIM, 98, NL] (by decide)
   revert this; decide
 
-theorem C01_witness_delim : dcatPlain 8 16 [97, DELIM, 98, NL] = [97, 98, NL] := by decide
-theorem C01_witness_dot : dcatPlain 8 16 (b!".x\ny\n") = b!"y\n" := by decide
-theorem C01_witness_long : dcatPlain 8 4 (b!"abcdef\nz\n") = b!"abcdz\n" := by decide
+theorem C01_witness_delim : dcatPlain 8 [97, DELIM, 98, NL] = [97, 98, NL] := by decide
+/-- ".x\ny\n" prints "y\n" -/
+theorem C01_witness_dot : dcatPlain 8 (b!".x\ny\n") = b!"y\n" := by decide
+/-- the repaired defect: "abcdef\nz\n" through a 4-byte buffer printed "abcdz\n" -/
+theorem C01_old_truncation : dcatPlainOld 8 4 (b!"abcdef\nz\n") = b!"abcdz\n" := by decide
 
 /-- Non-vacuity: a non-trivial content meets every hypothesis of `C01_partial`. -/
-example : sigDelim (b!"ab\n\ncdefghijkl") = false ∧ sigDot 4 (b!"ab\n\ncdefghijkl") = false
-    ∧ sigLong 4 16 (b!"ab\n\ncdefghijkl") = false := by decide
+example : sigDelim (b!"ab\n\ncdefghijkl") = false ∧ sigDot 4 (b!"ab\n\ncdefghijkl") = false := by decide
+
+/-- the driver's linear-time reader and client are the model's (the differential run on long
+    lines uses them) -/
+theorem C01_driver_fast_versions (m : Nat) (bs : Bytes) :
+    readLinesF m bs = readLines m bs ∧ clientMsgsF bs = (clientFeed ⟨[], []⟩ bs).msgs :=
+  ⟨readLinesF_eq m bs, clientMsgsF_eq bs⟩
 
 end Dtail.C01
